@@ -20,7 +20,7 @@ MODULES = {
     "C02": ["C02", "GenNumGu", "GenNumPgu", "GenGlueWhits"] + SMOOTH_FIXED + SMOOTH_V[:3] + SMOOTH_GCV,
     "C03": ["C03", "GenNumGu", "GenNumPgu", "GenGlueWhits"] + SMOOTH_FIXED,
     "C04": ["C04", "GenNumOptv", "GenNumOptvp", "GenNumOptvpCore", "GenNumOptvplc", "GenNumOptvplcTyx", "GenGlueWhitsvc"] + SMOOTH_V,
-    "C05": ["C05", "GenNumWcv", "GenNumWcvp", "GenGlueWhitswcv", "SafeWs2dwcvOk"] + SMOOTH_GCV,
+    "C05": ["C05", "GenNumWcv", "GenNumWcvp", "GenGlueWhitswcv", "SafeWs2dwcvOk", "SafeWs2dwcvpOk"] + SMOOTH_GCV,
     "C06": ["C06core", "C06"] + SMOOTH_FIXED + SMOOTH_V[:3] + SMOOTH_GCV,
     "C07": ["C07", "GenNumBrent", "GenNumGammafit", "GenNumGammastd", "GenGlueSpi", "GenGlueCalIndices"] + SPI,
     "C08": ["C08", "GenNumGammastd", "GenNumGammastdYxt", "SafeBrentq", "SafeGammafit", "SafeGammastd", "SafeGammastdGrp", "SafeGammastdYxt", "GenGlueSpi"] + SPI,
@@ -29,7 +29,7 @@ MODULES = {
     "C11": ["C11", "GenGluePeriod", "GenGlueAnomalies"], "C12": ["C12", "GenNumOptvplcTyx", "GenGlueZonalMean", T + "Ws2doptvplcTyx"], "C13": ["C13"] + ALL_TYPES,
     "C14": ["C14", "SafeRollingSum", "SafeLroo", "SafeMeanGrp", "SafeDoMean", "SafeAutocorrSums", "SafeMkScoreCounts",
             "SafeWs2d", "SafeTinterpolate", "SafeWs2doptv", "SafeWs2dgu", "SafeWs2dpgu", "SafeWs2doptvpCore", "SafeWs2doptvp", "SafeWs2doptvplc",
-            "SafeMkSens", "SafeMkVariance", "SafeGammastdGrp", "SafeGammastdYxt", "SafeWs2dwcv", "SafeWs2dwcvOk", "SafeWs2dwcvp"],
+            "SafeMkSens", "SafeMkVariance", "SafeGammastdGrp", "SafeGammastdYxt", "SafeWs2dwcv", "SafeWs2dwcvOk", "SafeWs2dwcvp", "SafeWs2dwcvpOk"],
     "C15": ["C15", "GenKAC", "GenNumACFloat", "GenNumACInt", "GenNumAC1d", "GenNumACYxt", "GenNumACTyx", "GenNumACWrapInv", "GenGlueAutocorrAcc", T + "Autocorr", T + "AutocorrTyx"],
     "C16": ["C16", "GenKDoMean", "GenKDoMeanB", "GenGlueZonalMean", T + "DoMean"],
     "C17": ["C17", "C17round", "C17float", "GenKRS", "GenKRSround", "GenKMeanGrp", "GenKMeanGrpB", "GenGlueMeanGrp", "GenGlueRollingSumAcc", T + "MeanGrp", T + "RollingSum"],
